@@ -82,6 +82,62 @@ def run_noloss(case):
     return {"nontrivial": clamp > 0 and free > 1, "classes": sorted(classes)}
 
 
+def run_shared(case):
+    """the same packet objects travel over several wires at once (a hub repeats a packet without copying it): every wire must
+    obey the delivery law on its own, whatever the others do with the packet meanwhile"""
+    lab = Lab(clause="C10.no_exception")
+    wires = []
+    for wi, delays in enumerate(case["wires"]):
+        calls = []
+
+        def dist(delays=delays, calls=calls):
+            d = delays[len(calls) % len(delays)]
+            calls.append(d)
+            return d
+        w = Wire(lab.env, dist, wire_id=wi)
+        out = lab.tap(f"out{wi}")
+        w.out = out
+        entry = lab.tap(f"in{wi}", w)
+        wires.append((entry, out, calls))
+
+    class Repeat:
+        def put(self, pkt):
+            for entry, _, _ in wires:
+                entry.put(pkt)
+    lab.inject(Repeat(), case["wl"])
+    lab.run()
+    clamped = 0
+    for wi, (entry, out, calls) in enumerate(wires):
+        if len(out.recs) != len(entry.recs) or len(calls) != len(entry.recs):
+            raise Violation("C10.delivered_once", f"wire {wi}: {len(entry.recs)} entered, {len(out.recs)} delivered, {len(calls)} draws",
+                            "C10.delivered_once/shared")
+        prev = None
+        for k, (ri, ro) in enumerate(zip(entry.recs, out.recs)):
+            if ri.pkt is not ro.pkt:
+                raise Violation("C10.order", f"wire {wi}: packets left in a different order", "C10.order/shared")
+            own = F(ri.now) + F(calls[k])
+            want = own if prev is None else max(own, prev)
+            if prev is not None and own < prev:
+                clamped += 1
+            if F(ro.now) != want:
+                raise Violation("C10.delivery_instant", f"wire {wi} (delays {case['wires'][wi]}): packet {k + 1} entered at {ri.now!r} with "
+                                                        f"drawn delay {calls[k]!r}, previous delivery {prev if prev is None else float(prev)!r}: "
+                                                        f"delivered at {ro.now!r}, expected {float(want)!r} (the same packet object is "
+                                                        f"also travelling over {len(wires) - 1} other wire(s))",
+                                "C10.delivery_instant/shared-object")
+            prev = F(ro.now)
+    classes = {"same objects on %d wires" % len(wires)}
+    if clamped:
+        classes.add("held back by predecessor (clamp)")
+    return {"nontrivial": clamped > 0 and len(wires) >= 2, "classes": sorted(classes)}
+
+
+def shared_strategy(tier):
+    dl = st.lists(st.sampled_from([0, 1 / 8, 0.5, 1, 2, 4, 8]), min_size=1, max_size=5)
+    wl = netlab.workload([0, 1], n_max=25, exact=True, min_size=3, late=False)
+    return st.fixed_dictionaries({"wires": st.lists(dl, min_size=2, max_size=3), "wl": wl})
+
+
 def binom_band(n, p, alpha=Fraction(1, 2 * 10 ** 9)):
     """[lo, hi] such that P(X < lo) <= alpha and P(X > hi) <= alpha for X ~ Bin(n, p)"""
     p = Fraction(p)
@@ -346,6 +402,8 @@ PROP = Property(
               essential=["constant draw below p", "constant draw above p", "seeded draws", "loss rate 1", "some lost, some delivered"]),
         Facet("loss_varying", loss_varying_strategy, run_loss_varying, quick=600, thorough=4000,
               essential=["some lost, some delivered", "held back by predecessor (clamp)"]),
+        Facet("shared_objects", shared_strategy, run_shared, quick=500, thorough=3000,
+              essential=["held back by predecessor (clamp)"]),
         Facet("cable", cable_strategy, run_cable, quick=300, thorough=1500, essential=["both directions"]),
     ],
     assumptions=["frequency clause is statistical (binomial band at 1e-9); independence of draws is not testable beyond that",
